@@ -21,12 +21,14 @@ int main (void)
   char *w[MAXW];
   StunTimer timer;
   memset (&timer, 0, sizeof timer);
+  setvbuf (stdout, NULL, _IOFBF, 1 << 16);
   while (fgets (line, sizeof line, stdin)) {
     int n;
     if (line[0] == '#' || line[0] == '\n') continue;
     n = split_words (line, w);
     if (n == 0) continue;
-    if (!strcmp (w[0], "timer") && n >= 3) {
+    if (!strcmp (w[0], "reset")) { memset (&timer, 0, sizeof timer); puts ("reset"); }
+    else if (!strcmp (w[0], "timer") && n >= 3) {
       if (!strcmp (w[1], "start") && n == 5) {
         verif_now_us = strtoull (w[4], NULL, 10);
         stun_timer_start (&timer, strtoul (w[2], NULL, 10), strtoul (w[3], NULL, 10));
